@@ -104,6 +104,9 @@ pub struct Ctx {
     pub counters: BTreeMap<String, u64>,
     pub frozen: bool,
     pub max_samples: usize,
+    /// Replay mode: exclusions for open known findings are switched off so that the committed
+    /// reproduction of a finding actually exercises it.
+    pub strict: bool,
 }
 
 impl Ctx {
@@ -489,6 +492,7 @@ pub fn run_replay_file<S: Sub>(
     let case: S::Case = serde_json::from_value(rf.case).map_err(|e| format!("{path:?}: {e}"))?;
     let mut ctx = Ctx::new();
     ctx.max_samples = 0;
+    ctx.strict = true;
     let res = checked(s, &case, &mut ctx);
     report.evaluations += ctx.evaluations.max(1);
     *report
@@ -539,6 +543,7 @@ pub fn strict_replay<S: Sub>(s: &S, path: &Path) -> Option<Result<(), String>> {
         Err(e) => return Some(Err(format!("cannot decode case: {e}"))),
     };
     let mut ctx = Ctx::new();
+    ctx.strict = true;
     Some(checked(s, &case, &mut ctx))
 }
 
